@@ -457,6 +457,13 @@ impl<'a> Exec<'a> {
             self.vio("join:failed", format!("cluster join failed: {e}"));
         }
         self.check();
+        if self.join_done.is_none() {
+            // settling ended on a mismatch with the model before the join returned (`check` has
+            // reported it, the engine re-executes it before it counts): the worker threads are
+            // still running, nothing is frozen, and the post-join rules have nothing to say
+            self.res.counters.push(("c19_finale_left_before_join_returned", 1));
+            return;
+        }
         self.frozen_checks();
     }
 
